@@ -402,7 +402,21 @@ def _check_batch_outcome(w: World, got: Tuple[Any, ...], calls: List[gen.Logical
                         f'{op}[first failing call {first_fail}]', ctx)
 
 
+def systematic(tier: str):
+    """Every (client kind, dispatcher kind and flavour, id generator, strict flag) configuration, several seeds each."""
+    reps = 8 if tier == 'quick' else 60
+    for ca in range(2):
+        for sa in range(2):
+            for fl in (range(3) if sa else [0]):
+                for idg in (0, 6, 9, 12):          # weighted [6, 3, 3, 1] -> sequential, randint, random, uuid
+                    for ns in (0, 3):              # flag(1, 4): raw 3 -> non-strict
+                        for _ in range(reps):
+                            yield {'cfg.client_async': [ca], 'cfg.server_async': [sa], 'cfg.flavour': [fl],
+                                   'cfg.id_gen': [idg], 'cfg.nonstrict': [ns]}
+
+
 FAMILIES = {'e2e.single': fam_single, 'e2e.batch': fam_batch}
+SYSTEMATIC = {'e2e.single': systematic, 'e2e.batch': systematic}
 PLAN = {
     'quick': {'e2e.single': 30000, 'e2e.batch': 30000},
     'thorough': {'e2e.single': 20000, 'e2e.batch': 20000},
